@@ -101,3 +101,14 @@ def search(tier, rng):
         yield J('p_line', *long_line(rng, rng.choice([20, 60, 200, 1000, 5000])))
     for _ in range(20 if tier == 'quick' else 200):
         yield J('p_line', *long_line(rng, 2 ** 20))
+    # thick clauses: every delta of the grid [-R,R]^2 (start at the origin and at one other point), every width
+    RT, WT = (7, 9) if tier == 'quick' else (12, 12)
+    for x1 in range(-2 * RT, 2 * RT + 1):
+        for y1 in range(-2 * RT, 2 * RT + 1):
+            for w in range(0, WT + 1):
+                yield J('p_thick', 0, 0, x1, y1, w)
+    for l in grid_lines(3 if tier == 'quick' else 5):
+        for w in (1, 2, 3, 4, 7):
+            yield J('p_thick', *l, w)
+    for _ in range(3000 if tier == 'quick' else 40000):
+        yield J('p_thick', *long_line(rng, rng.choice([10, 30, 80, 300])), rng.choice([1, 2, 3, 4, 5, 6, 7, 9, 12, 20, 33]))
